@@ -1149,6 +1149,26 @@ func (a *Authenticator) validateTokenTiming(claims map[string]interface{}, confi
 		}
 	}
 
+	// Check the not-before time: a token whose validity has not begun yet is not
+	// currently valid (RFC 7519 4.1.5; HTCondor's verifier enforces it as well).
+	if nbf, ok := claims["nbf"]; ok {
+		var nbfTime int64
+		switch v := nbf.(type) {
+		case float64:
+			nbfTime = int64(v)
+		case int64:
+			nbfTime = v
+		case int:
+			nbfTime = int64(v)
+		default:
+			return fmt.Errorf("JWT nbf claim is not a valid timestamp")
+		}
+
+		if now < nbfTime {
+			return fmt.Errorf("token is not valid before %d (now %d)", nbfTime, now)
+		}
+	}
+
 	return nil
 }
 
